@@ -178,7 +178,9 @@ def check(ctx):
     # ---- R1c: in files(): append of a parsed file is guarded by the lock filter
     fcfg = CFG(files_fn)
     fdefs = df.all_defs(files_fn)
-    appends = [c for c in calls_in(files_fn) if call_name(c) == "files.append"]
+    # role: the result list = the local that is returned (and sorted)
+    FILES = {n_ for n_ in returned_names(files_fn)}
+    appends = [c for c in calls_in(files_fn) if isinstance(c.func, ast.Attribute) and c.func.attr == "append" and isinstance(c.func.value, ast.Name) and c.func.value.id in FILES]
     if len(appends) < 1:
         raise AnchorMissing(f"{JSON}: JsonHistoryGC.files no longer appends to `files`")
     n_guarded = 0
@@ -209,7 +211,7 @@ def check(ctx):
     ctx.ob("R1", f"{JSON}:JsonHistoryGC.files", "at least one append is behind the lock filter", n_guarded >= 1, key="files|no-lock-filter")
     # returned list is the sorted `files`
     rets = [n for n in walk_local(files_fn) if isinstance(n, ast.Return) and n.value is not None]
-    sorts = [c for c in calls_in(files_fn) if call_name(c) == "files.sort"]
+    sorts = [c for c in calls_in(files_fn) if isinstance(c.func, ast.Attribute) and c.func.attr == "sort" and isinstance(c.func.value, ast.Name) and c.func.value.id in FILES]
     asc = bool(sorts) and all(
         not any(k.arg == "reverse" and const_value(k.value) is not False for k in c.keywords) and not any(k.arg == "key" for k in c.keywords) and not c.args
         for c in sorts
@@ -219,7 +221,7 @@ def check(ctx):
         v = r.value
         if isinstance(v, ast.List) and not v.elts:
             continue
-        okret = is_name(v, "files")
+        okret = isinstance(v, ast.Name) and v.id in FILES and bool(sorts) and v.id == sorts[0].func.value.id
         dom = False
         if okret and sorts:
             for n in node_in(fcfg, r):
